@@ -224,9 +224,11 @@ func NewFullRT(h host.Host, protocolPrefix protocol.ID, options ...Option) (*Ful
 
 	var bsPeers []*peer.AddrInfo
 
-	for _, ai := range dhtcfg.BootstrapPeers() {
-		tmpai := ai
-		bsPeers = append(bsPeers, &tmpai)
+	if dhtcfg.BootstrapPeers != nil {
+		for _, ai := range dhtcfg.BootstrapPeers() {
+			tmpai := ai
+			bsPeers = append(bsPeers, &tmpai)
+		}
 	}
 
 	rt := &FullRT{
